@@ -61,3 +61,42 @@ Proof.
       split; [tauto|]. intros [H|[H|[]]]; [assumption|].
       inversion H. congruence.
 Qed.
+
+(* the restriction set after any history of FileSearcher.add calls: exactly
+   the definitions ever added with allow_global_constraints=False *)
+Lemma fs_restrict_in r allow d x :
+  In x (fs_restrict r allow d) <-> In x r \/ (allow = false /\ x = d).
+Proof.
+  unfold fs_restrict. destruct allow; simpl.
+  - split; [tauto|]. intros [H|[H _]]; [assumption|discriminate].
+  - destruct (existsb (Z.eqb d) r) eqn:E.
+    + split; [tauto|]. intros [H|[_ ->]]; [assumption|].
+      apply existsb_exists in E. destruct E as [y [Hy Ey]].
+      apply Z.eqb_eq in Ey. now subst.
+    + rewrite in_app_iff. simpl. split.
+      * intros [H|[H|[]]]; [now left|right; now split].
+      * intros [H|[_ ->]]; [now left|right; now left].
+Qed.
+
+Lemma fs_restrict_nodup r allow d : NoDup r -> NoDup (fs_restrict r allow d).
+Proof.
+  intro H. unfold fs_restrict. destruct allow; simpl; [assumption|].
+  destruct (existsb (Z.eqb d) r) eqn:E; [assumption|].
+  apply NoDup_app_snoc; [assumption|]. intro Hin.
+  assert (existsb (Z.eqb d) r = true).
+  { apply existsb_exists. exists d. split; [assumption|apply Z.eqb_refl]. }
+  congruence.
+Qed.
+
+Lemma fs_restrictions_spec ops :
+  NoDup (fs_restrictions ops) /\
+  forall d, In d (fs_restrictions ops) <-> In (d, false) ops.
+Proof.
+  unfold fs_restrictions. induction ops as [|[d0 a0] ops IH] using rev_ind.
+  - simpl. split; [constructor|]. intro d. tauto.
+  - rewrite fold_left_app. cbn [fold_left fst snd]. destruct IH as [Hnd Hin].
+    split; [now apply fs_restrict_nodup|]. intro d.
+    rewrite fs_restrict_in, Hin, in_app_iff. simpl. split.
+    + intros [H|[-> ->]]; [now left|right; now left].
+    + intros [H|[H|[]]]; [now left|]. inversion H. right. now split.
+Qed.
